@@ -27,6 +27,10 @@ pub fn main_with(expect: &str, driver: fn(&mut Ctx)) {
         eprintln!("HARNESS-ERROR: driver {} panicked outside a monitored call: {} at {}", args.prop, pi.message, pi.location);
         ctx.inconclusive(format!("driver panicked outside a monitored call: {} at {}", pi.message, pi.location));
     }
+    let unaligned = UNALIGNED_INPUTS_MADE.load(std::sync::atomic::Ordering::Relaxed);
+    if unaligned > 0 {
+        ctx.count_n("idpf_inputs_with_nonzero_storage_offset", unaligned);
+    }
     let out = ctx.to_json(wall);
     let text = serde_json::to_string(&out).unwrap();
     match args.out {
